@@ -10,7 +10,7 @@ rsync -a --exclude .git --exclude __pycache__ /repo/ "$SCRATCH/repo/"
 if ! (cd "$SCRATCH/repo" && patch -p1 --quiet < "$PATCH"); then
   echo "MUTANT-ERROR patch does not apply: $PATCH"; exit 3
 fi
-VERIF_REPO="$SCRATCH/repo" timeout "${MUTANT_TIMEOUT:-1800}" /venv/bin/python /verif/check.py "$PID" --tier "$TIER"
+VERIF_REPO="$SCRATCH/repo" VERIF_EVIDENCE_DIR="$SCRATCH/evidence" timeout "${MUTANT_TIMEOUT:-1800}" /venv/bin/python /verif/check.py "$PID" --tier "$TIER"
 rc=$?
 echo "MUTANT-RESULT patch=$(basename "$PATCH") property=$PID rc=$rc"
 exit $rc
